@@ -155,7 +155,35 @@ def run(ctx):
           and "_get_eligible_cpus" in norm_stmt(deref(fa.node, st.value))]
     eok = el and all(("truthy", cp, False) in facts(facfg, n)
                      for st in el for n in facfg.nodes_of(st))
-    if eok:
+    # what "eligible" means: the kernel's Cpus_allowed_list, or every CPU - never
+    # the process's CURRENT mask (then cpu_affinity([]) would change nothing)
+    from ..core.absint import Interp, alternatives, pretty
+    from ..core.forms import canon
+    ge = repo.func(pm, "Process._get_eligible_cpus", required=False)
+    if eok and ge is not None:
+        Ie = Interp(repo, A)
+        te = canon(Ie.call_function(ge, []))
+        for alt in alternatives(te):
+            txt = pretty(alt)
+            if "affinity" in txt:
+                eok = False
+                ctx.fail("C18.R1", "affinity:empty-list", ge.file, ge.node.lineno, ge.qual,
+                         f"the 'eligible CPUs' can be `{txt[:90]}`, i.e. the process's current "
+                         f"affinity: cpu_affinity([]) then re-applies the current mask instead "
+                         f"of selecting all eligible CPUs")
+                break
+            if "Cpus_allowed_list" not in txt and "stat" not in txt and "cpu_count" not in txt:
+                eok = False
+                ctx.fail("C18.R1", "affinity:empty-list", ge.file, ge.node.lineno, ge.qual,
+                         f"the 'eligible CPUs' `{txt[:90]}` come neither from the kernel's "
+                         f"Cpus_allowed_list nor from the CPU table")
+                break
+        if not eok:
+            pass
+    if ge is not None and not eok and any(f_.key == "C18.R1:affinity:empty-list"
+                                          for f_ in ctx.findings):
+        pass
+    elif eok:
         ctx.ok("C18.R1", "affinity:empty-list", sample="not cpus -> _get_eligible_cpus()")
     else:
         ctx.fail("C18.R1", "affinity:empty-list", fa.file, fa.node.lineno, fa.qual,
